@@ -142,6 +142,23 @@ static void *watchdog(void *a){ (void)a; int last=-1, same=0; for(;;){ usleep(20
         *(volatile uint64_t*)_dispatch_verif_queue_state_addr(Q[0]), *(volatile uint64_t*)_dispatch_verif_queue_state_addr(Q[1])); _dispatch_verif_atomic_cb=0; dump(); _exit(3);} } return 0; }
 #include <signal.h>
 static void on_crash(int sig){ char b[240]; int n=snprintf(b,sizeof b,"ORACLE VIOL seed=%llu the library trapped or crashed (signal %d) during the lane workload (a trap is the library's own ownership / corruption / over-release check firing)\n",(unsigned long long)seed,sig); if(n>0) (void)!write(1,b,(size_t)n); _exit(1); }
+// ---- narrow mode: a concurrent queue whose width is limited (dispatch_queue_set_width), flooded with more asynchronous items than it
+// has width, so that drainers keep running out of width; the first item waits for the last one (legitimate: no barrier is ever
+// submitted to this queue, and the width is at least 2), two threads add synchronous readers. Everything must run.
+extern void dispatch_queue_set_width(dispatch_queue_t dq, long width);
+static atomic_int nd_last_ran; static int nd_n;
+static void nd_item(void *c){ long i=(long)c;
+  if(i==0){ for(int w=0; w<150000 && !atomic_load(&nd_last_ran); w++) usleep(100); }
+  else { for(volatile int k=0;k<(int)(rnd()%4000);k++){} if(rnd()%16==0) sched_yield(); }
+  if(i==nd_n-1) atomic_store(&nd_last_ran,1);
+  atomic_fetch_add(&done_items,1); }
+static void nd_sync_item(void *c){ (void)c; for(volatile int k=0;k<500;k++){} atomic_fetch_add(&done_items,1); }
+static void *nd_sync_client(void *a){ long n=(long)a; for(long i=0;i<n;i++){ atomic_fetch_add(&expected,1); dispatch_sync_f(Q[1],0,nd_sync_item); if(rnd()%8==0) usleep(rnd()%100); } return 0; }
+static int narrow(int width, int n){ nd_n=n; atomic_fetch_add(&expected,n);
+  pthread_t sc[2]; for(int i=0;i<2;i++) pthread_create(&sc[i],0,nd_sync_client,(void*)(long)(n/8));
+  for(long i=0;i<n;i++){ dispatch_async_f(Q[1],(void*)i,nd_item); if(i%64==0 && rnd()%4==0) usleep(rnd()%200); }
+  for(int i=0;i<2;i++) pthread_join(sc[i],0);
+  (void)width; return n; }
 int main(int argc, char **argv){
   signal(SIGILL,on_crash); signal(SIGSEGV,on_crash); signal(SIGABRT,on_crash); signal(SIGBUS,on_crash);
   seed = argc>1 ? strtoull(argv[1],0,0) : 1; int nthr = argc>2 ? atoi(argv[2]) : 4; nops = argc>3 ? atoi(argv[3]) : 200; serial_only = argc>4 ? atoi(argv[4]) : 0;
@@ -149,10 +166,14 @@ int main(int argc, char **argv){
   int chain = argc>5 ? atoi(argv[5]) : 0;     // 1: the serial queue targets the concurrent one (a hierarchy whose inner level is concurrent and not a root queue)
   Q[1] = dispatch_queue_create("c", DISPATCH_QUEUE_CONCURRENT);
   Q[0] = chain ? dispatch_queue_create_with_target("s", DISPATCH_QUEUE_SERIAL, Q[1]) : dispatch_queue_create("s", DISPATCH_QUEUE_SERIAL);
-  for(int i=0;i<NQ;i++){ stateoff[i]=(long)((char*)_dispatch_verif_queue_state_addr(Q[i])-(char*)Q[i]); printf("Q %d width %d stateoff %ld\n", i, i==0?1:4094, stateoff[i]); }
+  int width = argc>6 ? atoi(argv[6]) : 0;     // > 0: narrow mode (the concurrent queue is limited to this width)
+  if(width>0){ dispatch_queue_set_width(Q[1],width); dispatch_barrier_sync(Q[1],^{}); }
+  for(int i=0;i<NQ;i++){ stateoff[i]=(long)((char*)_dispatch_verif_queue_state_addr(Q[i])-(char*)Q[i]); printf("Q %d width %d stateoff %ld\n", i, i==0?1:(width>0?width:4094), stateoff[i]); }
   _dispatch_verif_yield_cb = ycb; _dispatch_verif_atomic_cb = cb;
   pthread_t wd; pthread_create(&wd,0,watchdog,0);
-  pthread_t th[64]; for (int i=0;i<nthr;i++) pthread_create(&th[i],0,client,(void*)(intptr_t)i);
+  pthread_t th[64];
+  if(width>0){ narrow(width,nops*nthr); nthr=0; }
+  for (int i=0;i<nthr;i++) pthread_create(&th[i],0,client,(void*)(intptr_t)i);
   for (int i=0;i<nthr;i++) pthread_join(th[i],0);
   for (int w=0; w<20000 && atomic_load(&done_items) < atomic_load(&expected); w++) usleep(1000);
   usleep(20000);
